@@ -132,6 +132,8 @@ def _finish(seed, tier, world, strategies, program, ns, threads, noisy, failing,
     }
     real_pool = tier == "thorough" and threads > 1 and rs.random() < 0.03
     faults = []
+    if R.sub(seed, "add_strategy").random() < 0.3:
+        sched["add_strategy"] = True  # managers built without a strategy list and filled through add_strategy()
     if R.sub(seed, "print").random() < 0.15:
         sched["print_actions"] = True  # BacktestConfig(print_actions=True): every recorded action is formatted and printed
         faults.append({"kind": "print_actions"})
@@ -661,7 +663,14 @@ def _session(scenario, idxs, threads, outdir, real_pool=False, frames=None, roun
             with (seam if not real_pool else _Null()):
                 for r, size in enumerate(sizes):
                     part, at = strategies[at:at + size], at + size
-                    mgr = BacktestManager(config=config, data=data, strategies=part, backtest_config=BacktestConfig(interval=world.get("interval", "1min"), print_actions=bool(scenario.get("sched", {}).get("print_actions"))), threads=threads)
+                    bc = BacktestConfig(interval=world.get("interval", "1min"), print_actions=bool(scenario.get("sched", {}).get("print_actions")))
+                    if scenario.get("sched", {}).get("add_strategy"):
+                        # the manager built empty and filled with add_strategy(), one by one
+                        mgr = BacktestManager(config=config, data=data, backtest_config=bc, threads=threads)
+                        for stg in part:
+                            mgr.add_strategy(stg)
+                    else:
+                        mgr = BacktestManager(config=config, data=data, strategies=part, backtest_config=bc, threads=threads)
                     mgr.run()
         except SP.SimPoolError:
             raise
